@@ -36,6 +36,8 @@ pub struct Profile {
     pub durabilities: bool,
     /// never generate weak tombstones (also not inside batches / transactions)
     pub no_weak: bool,
+    /// prefix every key with its keyspace index (disjoint key universes, C18)
+    pub ks_prefix: bool,
 }
 
 impl Profile {
@@ -68,6 +70,7 @@ impl Profile {
             fronts: vec![0],
             durabilities: false,
             no_weak: false,
+            ks_prefix: false,
         }
     }
 }
@@ -132,7 +135,13 @@ impl Gen {
                 }
             }
         }
-        self.key()
+        let k = self.key();
+        if self.profile.ks_prefix {
+            let mut p = vec![b'0' + ks];
+            p.extend_from_slice(&k[..k.len().min(65_000)]);
+            return p;
+        }
+        k
     }
 
     pub fn val(&mut self, cfg: Option<KsCfg>) -> Val {
@@ -184,7 +193,7 @@ impl Gen {
             let mut key = self.existing_or_new_key(model, ks, 50);
             if allow_dup && !items.is_empty() && self.rng.chance(1, 8) {
                 let it = self.rng.pick(&items).clone();
-                if model.ks.contains_key(&it.ks) {
+                if it.ks == ks {
                     key = it.key;
                 }
             }
